@@ -56,8 +56,8 @@ def arrays(tier, rng, table, maxn_exh=4):
             for a in itertools.product(letters, repeat=n): out.append((dt, list(a)))
             if len(al) > 3:
                 for _ in range(6): out.append((dt, [rng.choice(al) for _ in range(n)]))
-        for _ in range(12 if tier != "thorough" else 60):
-            n = rng.randint(5, 200 if tier == "thorough" else 40)
+        for j in range(12 if tier != "thorough" else 60):
+            n = rng.randint(5, 200 if tier == "thorough" else 40) if j else rng.randint(130, 220)
             a = [];
             while len(a) < n: a += [rng.choice(al)] * rng.randint(1, 9)
             out.append((dt, a[:n]))
@@ -169,6 +169,9 @@ def run_c15(R, tier, rng):
         if guarded(mk) is None: continue
         for i in sorted({0, n - 1, -1, -n, n // 2, -(n // 2) - 1} & set(range(-n, n))):
             C.cmp(f"int {tag} [{i}]", "int", nt, lambda: [key(mk()[i])], lambda: [key(A[i])], py=f"RunLengthArray.from_array(np.array({a!r}, dtype='{dt}'))[{i}]")
+        if n > 127:       # narrow index dtypes on a long array
+            idx8 = [-1, 3, -128, 127, n % 100]
+            C.cmp(f"int8-array {tag} {idx8}", "int-array/int8", nt, lambda: dense_obs(mk()[np.array(idx8, dtype=np.int8)]), lambda: dense_obs(A[np.array(idx8, dtype=np.int8)]), py=f"rla[np.array({idx8}, dtype=np.int8)]  (length {n})")
         for _ in range(3):
             idx = [rng.randrange(-n, n) for _ in range(rng.randint(1, 5))]
             C.cmp(f"list {tag} {idx}", "list", nt, lambda: dense_obs(mk()[idx]), lambda: dense_obs(A[idx]), py=f"rla[{idx}]  rla = from_array({a!r}, {dt})")
@@ -248,7 +251,8 @@ def run_c16(R, tier, rng):
             if ufn in ("floor_divide", "true_divide") and s in (0, False): s = SMALL[dt][0]
             if ufn == "left_shift": s = 2
             scal = [("py", (bool(s) if dt == "bool" else float(s) if dt.startswith("float") else int(s)))]
-            if dt != "bool": scal.append(("np", np.dtype(dt).type(s) if ufn != "left_shift" else np.int8(2)))
+            scal.append(("np", np.dtype(dt).type(s) if ufn != "left_shift" else np.int8(2)))
+            scal.append(("0d", np.array(s, dtype=dt) if ufn != "left_shift" else np.array(2, dtype=np.int8)))
             for sk, sv in scal:
                 C.cmp(f"scalar-R {ufn} {tag} {sk}:{sv!r}", "scalar-R/" + ufn, nt, lambda: rl_obs(uf(RunLengthArray.from_array(A), sv), 1, with_canon=False),
                       lambda: spec_rl(uf(A, sv), canon=False), py=f"np.{ufn}(from_array({a!r}, {dt}), {sv!r})")
